@@ -67,7 +67,7 @@ class Int32(Int):
         c = Int.classify(self, v, pc, vals)
         if c == "rej":
             for w in (sx(v, 32), v & 0xffffffff):
-                if w != v and Int.classify(self, w, pc, vals) == "ok":
+                if w != v and Int.classify(self, w, pc, vals) != "rej":   # ok, or a hole taking another form
                     return "excl"
         return c
 
